@@ -517,7 +517,7 @@ pub fn run(tier: Tier, seed: u64) -> Report {
         tier,
         seed,
         "fault_enumeration",
-        "SQLite-backed histories (library and HTTP handlers) with a fault plan. Trait level: the k-th storage call of the target request (begin, each read, each write, commit) fails either before taking effect or after taking effect (effect applied, error reported); complete enumeration of (call, before/after) for the canonical requests in three client states, plus generated prefixes/requests/plans and double faults (a second fault in the request that follows). File level: the n-th read/write/sync/truncate/open/delete/lock call of the VFS inside the target request returns an I/O error. Oracle: an injected trait-level failure => error response, state (ids abstracted to chain positions, incl. stored row count) equal to before - or equal to the fault-free twin's state only when the failed call was a commit that took effect; file level: error => state in {before, after}, success => state = after; afterwards, through the same server object, the first read is - in turn - the child of the version the client held, the snapshot, or the whole chain from its base (all three are made), then a write by the same client and further reads are served per the model without waiting on a leaked lock. Non-trivial: the fault hits a write or commit of a mutating request; distinct by (entry, request kind, call, before/after, call index, state class).",
+        "SQLite-backed histories (library and HTTP handlers) with a fault plan. Trait level: the k-th storage call of the target request (begin, each read, each write, commit) fails either before taking effect or after taking effect (effect applied, error reported); complete enumeration of (call, before/after) for the canonical requests in three client states, plus generated prefixes/requests/plans and double faults (a second fault in the request that follows). File level: the n-th read/write/sync/truncate/open/delete/lock call of the VFS inside the target request returns an I/O error, or the n-th consultation of the SQL authorizer is refused (the statement being compiled fails whatever is cached). Oracle: an injected trait-level failure => error response, state (ids abstracted to chain positions, incl. stored row count) equal to before - or equal to the fault-free twin's state only when the failed call was a commit that took effect; file level: error => state in {before, after}, success => state = after; afterwards, through the same server object, the first read is - in turn - the child of the version the client held, the snapshot, or the whole chain from its base (all three are made), then a write by the same client and further reads are served per the model without waiting on a leaked lock. Non-trivial: the fault hits a write or commit of a mutating request; distinct by (entry, request kind, call, before/after, call index, state class).",
     );
     rep.assume("'client exists with no versions' is identified with 'client unknown' (no protocol read tells them apart; the HTTP create step is a transaction of its own by design)");
     rep.assume("the fault-free outcome of a request is obtained by running it on a copy of the database file");
